@@ -60,6 +60,18 @@ def cases(tier):
     for key in sorted(by):
         for c in r.sample(by[key], min(per, len(by[key]))):
             out.append({"fmt": c["fmt"], "kind": "cli-" + c["kind"], "req": c["req"], "data": c["data"]})
+    # not left to the draw: every fixture, and up to four valid / option cases per format that skip a preamble (-s N > 0)
+    have = {c["req"] for c in out}
+    nskip = {}
+    for c in base:
+        parts = c["req"].split(" ")
+        skip = int(parts[4]) if c["fmt"] == "hrs" else int(parts[6]) if c["fmt"] == "max" else 0
+        want = c["kind"] == "fixture" or (skip > 0 and c["kind"] in ("valid", "option") and nskip.get(c["fmt"], 0) < 4)
+        if want and c["req"] not in have:
+            if skip > 0 and c["kind"] != "fixture":
+                nskip[c["fmt"]] = nskip.get(c["fmt"], 0) + 1
+            have.add(c["req"])
+            out.append({"fmt": c["fmt"], "kind": "cli-" + c["kind"], "req": c["req"], "data": c["data"]})
     # MAX's own failure protocol: header errors with and without -i, for every I/O arrangement
     for _ in range(3 if tier != "thorough" else 12):
         c = G.build_max(r, newsroom=False)
@@ -85,6 +97,37 @@ def run_cli(fmt, opts, data, mode):
         elif mode == "fo":
             p = subprocess.run(cmd + [src] + opts, stdin=subprocess.DEVNULL, capture_output=True, cwd=REPO, timeout=120)
             out = p.stdout
+        elif mode == "ip":          # standard input through a pipe that delivers the file in three pieces, not aligned with any read
+            p = subprocess.Popen(cmd + opts, stdin=subprocess.PIPE, stdout=subprocess.PIPE, stderr=subprocess.PIPE, cwd=REPO)
+            import threading
+            import time
+            cuts = sorted({min(len(data), 7), min(len(data), max(8, len(data) // 3 + 5))})
+
+            def feed():
+                try:
+                    pos = 0
+                    for c in cuts + [len(data)]:
+                        p.stdin.write(data[pos:c])
+                        p.stdin.flush()
+                        pos = c
+                        time.sleep(0.15)
+                    p.stdin.close()
+                except (BrokenPipeError, OSError):
+                    pass
+            t = threading.Thread(target=feed)
+            t.start()
+            out = p.stdout.read()
+            p.stderr.read()
+            p.wait(timeout=120)
+            t.join()
+        elif mode == "fd":          # an explicit `-` for the output
+            p = subprocess.run(cmd + [src, "-"] + opts, stdin=subprocess.DEVNULL, capture_output=True, cwd=d, timeout=120,
+                               env=dict(os.environ, PYTHONPATH=REPO))
+            out = p.stdout
+        elif mode == "dd":          # an explicit `-` for both
+            p = subprocess.run(cmd + ["-", "-"] + opts, input=data, capture_output=True, cwd=d, timeout=120,
+                               env=dict(os.environ, PYTHONPATH=REPO))
+            out = p.stdout
         else:
             p = subprocess.run(cmd + opts, input=data, capture_output=True, cwd=REPO, timeout=120)
             out = p.stdout
@@ -96,7 +139,7 @@ def _work(req):
     fmt, opts, data = a
     inproc = impl_img.run_request(req)
     res = {}
-    for mode in ("ff", "fo") + (("io",) if fmt in STDIN_OK else ()):
+    for mode in ("ff", "fo") + (("io", "ip", "fd", "dd") if fmt in STDIN_OK else ()):
         try:
             rc, out = run_cli(fmt, opts, data, mode)
             res[mode] = (rc, None if out is None else hexs(out))
@@ -125,7 +168,7 @@ def oracle(case, impl):
     modes = case["aux"]["modes"]
     fmt = case["fmt"]
     for mode, (rc, out) in sorted(modes.items()):
-        name = {"ff": "file -> file", "fo": "file -> stdout", "io": "stdin -> stdout"}[mode]
+        name = {"ff": "file -> file", "fo": "file -> stdout", "io": "stdin -> stdout", "fd": "file -> `-`", "dd": "`-` -> `-`", "ip": "stdin (a pipe filled in pieces) -> stdout"}[mode]
         if rc == "timeout":
             return f"{fmt} {name}: the tool did not terminate within 120 s"
         if impl.startswith("ok "):
